@@ -30,8 +30,8 @@ from .. import presence_driver as pd
 
 SPEC_DIR = os.path.join(core.SPECS, 'node')
 PROP = 'C17'
-CLAUSE_INV = ['Ephemeral', 'NoForeign', 'Waits', 'OwnOnly', 'NoError', 'FireBound']
-ACTIONS = ['Submit', 'Finish', 'Begin', 'Call', 'End', 'Expire', 'Restart']
+CLAUSE_INV = ['Ephemeral', 'NoForeign', 'Waits', 'OwnOnly', 'RegisteredOwned', 'NoError', 'FireBound']
+ACTIONS = ['Submit', 'Finish', 'Begin', 'Call', 'End', 'Expire', 'Crash', 'Reap', 'Restart']
 
 RULE = ('a schedule counts when, in its recorded execution, a get of the presence service '
         'returned a node owned by another session (the service has to wait), or a node of its '
@@ -82,6 +82,7 @@ def mc_files(scn, tag, max_expire, defects, invariants, max_pad=0, max_fire=2):
     cfg = ['INIT Init', 'NEXT Next', 'CHECK_DEADLOCK FALSE', 'CONSTANTS',
            ' Hosts <- ScnHosts', ' Conts <- ScnConts', ' InstOf <- ScnInst', ' PathsOf <- ScnPaths',
            ' PerCont = %s' % percont, ' MaxExpire = %d' % max_expire, ' MaxFire = %d' % max_fire,
+           ' MaxKill = 0',
            ' MaxPad = %d' % max_pad,
            ' Defects = {%s}' % ', '.join('"%s"' % d for d in defects)]
     cfg += ['INVARIANT %s' % i for i in invariants]
